@@ -208,7 +208,10 @@ pub fn gen_qt_case(seed: u64, k: u64) -> Value {
         } else if roll < 70 {
             rows.push(mk("LIQ", sym, cur, json!([-rng.gen_range(1..20), 0]), d2(&mut rng, 100, 9000, 2), json!([0, 0]), json!([0, 0])));
         } else if roll < 80 {
-            rows.push(mk("DIV", sym, cur, json!([0, 0]), json!([0, 0]), json!([0, 0]), d2(&mut rng, 1, 50000, 2)));
+            // one dividend in five is a reversal (negative net amount)
+            let sign: i64 = if day % 5 == 0 { -1 } else { 1 };
+            let net = json!([sign * rng.gen_range(1..50000i64), 2]);
+            rows.push(mk("DIV", sym, cur, json!([0, 0]), json!([0, 0]), json!([0, 0]), net));
         } else if roll < 90 {
             // both legs of a conversion, either order, either direction
             let usd = rng.gen_range(100..500000);
